@@ -65,9 +65,10 @@ class availability(Comps):
     pre_funcs = tuple(_func(c) for c in E.BOUNDARY + F.FLOW)
 
     def requires(s, K):
-        # hypothesis of the statement: the deck is large enough for the requested deal
+        # hypothesis of the statement: the deck is large enough for the requested deal -- counting, as the documentation does, the
+        # burnt, mucked and discarded cards that are reshuffled when the deck runs out
         return all(f(s) for f in K.pre_funcs) and (not E.p_deal(s) or (
-            len(s.deck_cards) >= 1 and all(c <= len(s.deck_cards) for c in s.board_dealing_counts)))
+            F.dealable_count(s) >= 1 and all(c <= F.dealable_count(s) for c in s.board_dealing_counts)))
 
     @P('C07', 'while a hand is not over at least one operation is available; when it is over none is')
     def some_operation_iff_not_over(s, r):
